@@ -61,7 +61,12 @@ package wire
 //@   assert send: !has(c.replyCh, reqid(v)) && unheld(c.mu)   // one delivery per registration (the 1-slot reply channel cannot block the dispatcher), never under the lock
 
 //@ func (*ClientConn).readReliableLoop
-//@   props C06 C16 C15
+//@   props C06 C16 C15 C10
+// C10: the two inboxes that only the application drains (end-to-end calls and their acks) are
+// offered messages only in a select that also waits for the connection's context, so the
+// dispatcher is not left blocked on them after Close
+//@   assert[C10] send msgDownstreamCallCh: cancellable
+//@   assert[C10] send msgUpstreamCallAckCh: cancellable
 //@   assert[C06,C16] select: idx != 0 - 1   // the dispatcher never drops a message because a consumer is behind (no default arm)
 //@   ghostvar pingOwed bool = false
 //@   after recv msgCh: pingOwed = typeis(v, *message.Ping)
